@@ -24,8 +24,11 @@ import (
 	"strings"
 	"sync"
 	"sync/atomic"
+	"time"
 	"unsafe"
 
+	"github.com/segmentio/encoding/ascii"
+	"github.com/segmentio/encoding/iso8601"
 	"github.com/segmentio/encoding/json"
 	"github.com/segmentio/encoding/proto"
 	"github.com/segmentio/encoding/thrift"
@@ -290,7 +293,7 @@ func opsFor(round, k int, jt, pt, tt reflect.Type) []c09Op {
 			type mm struct{ M map[string]int32 }
 			var b1, g1, g2 mm
 			proto.Unmarshal([]byte{0x0a, 0x08, 0x0a, 0x03, 's', 't', 'a', 0x10, byte(k%100 + 1), 0x1f}, &b1) // value decoded, then an invalid wire type
-			e1 := proto.Unmarshal([]byte{0x0a, 0x02, 0x10, 0x05}, &g1)                                     // {"": 5}: the key is left out
+			e1 := proto.Unmarshal([]byte{0x0a, 0x02, 0x10, 0x05}, &g1)                                       // {"": 5}: the key is left out
 			proto.Unmarshal([]byte{0x0a, 0x08, 0x0a, 0x03, 's', 't', 'a', 0x10, byte(k%100 + 1), 0x1f}, &b1)
 			e2 := proto.Unmarshal([]byte{0x0a, 0x03, 0x0a, 0x01, 'k'}, &g2) // {"k": 0}: the value is left out
 			if e1 != nil || e2 != nil || len(g1.M) != 1 || g1.M[""] != 5 || len(g2.M) != 1 || g2.M["k"] != 0 {
@@ -310,7 +313,131 @@ func opsFor(round, k int, jt, pt, tt reflect.Type) []c09Op {
 			c, _ := stdjson.Marshal(out.Interface())
 			return fmt.Sprintf("%s|%v", c, err)
 		}},
+		// further entry points (every package-level entry point may be called from any number of goroutines): what they
+		// share - scratch for skipped values, pooled field sets, tables built on first use - shows to the race detector
+		{"thrift.Unmarshal(fields the target does not declare, both protocols)", func() string {
+			var sb strings.Builder
+			for _, p := range []thrift.Protocol{&thrift.BinaryProtocol{}, &thrift.CompactProtocol{}} {
+				b, _ := thrift.Marshal(p, c09Wide{A: int32(k), S: strings.Repeat("s", 10+k%300), B: []byte("bin"), L: []string{"x", strings.Repeat("y", 5000)},
+					M: map[string]c09Narrow{"k": {A: 1}}, N: &c09Narrow{A: 2}, Z: int64(k)})
+				var out c09Narrow
+				err := thrift.Unmarshal(p, b, &out)
+				fmt.Fprintf(&sb, "%d|%d|%v;", out.A, out.Z, err)
+			}
+			return sb.String()
+		}},
+		{"thrift.Encoder+Decoder", func() string {
+			var buf bytes.Buffer
+			p := &thrift.CompactProtocol{}
+			e := thrift.NewEncoder(p.NewWriter(&buf))
+			e.Encode(c09Narrow{A: int32(k), Z: 7})
+			e.Encode(c09Wide{A: 1, S: "s", L: []string{"a"}})
+			d := thrift.NewDecoder(p.NewReader(&buf))
+			var a c09Narrow
+			var b c09Wide
+			e1, e2 := d.Decode(&a), d.Decode(&b)
+			return fmt.Sprintf("%d|%d|%s|%v|%v|%v", a.A, a.Z, b.S, b.L, e1, e2)
+		}},
+		{"proto.Unmarshal(fields the target does not declare)+Scan", func() string {
+			b, _ := proto.Marshal(c09PWide{A: int32(k), S: strings.Repeat("s", 10+k%300), B: []byte("bin"), L: []string{"x", "y"}, M: map[string]int32{"k": 1}, Z: int64(k)})
+			var out c09PNarrow
+			err := proto.Unmarshal(b, &out)
+			n := 0
+			serr := proto.Scan(b, func(f proto.FieldNumber, t proto.WireType, v proto.RawValue) (bool, error) { n++; return true, nil })
+			return fmt.Sprintf("%d|%d|%v|%d|%v", out.A, out.Z, err, n, serr)
+		}},
+		{"proto.Rewriter(one rewriter, many goroutines)", func() string {
+			b, _ := proto.Marshal(c09PWide{A: int32(k), S: "keep", Z: 5})
+			out, err := c09Rewriter().Rewrite(nil, b)
+			var got c09PWide
+			e2 := proto.Unmarshal(out, &got)
+			return fmt.Sprintf("%d|%s|%d|%v|%v", got.A, got.S, got.Z, err, e2)
+		}},
+		{"json.Valid+Compact+Indent+Escape+Unescape", func() string {
+			doc := []byte(`{"a": [1, 2, {"b": "c<>\u00e9"}], "k` + strconv.Itoa(k) + `": null}`)
+			var c1, c2 bytes.Buffer
+			e1 := json.Compact(&c1, doc)
+			e2 := json.Indent(&c2, doc, ">", "  ")
+			esc := json.Escape("q\"<" + strconv.Itoa(k))
+			return fmt.Sprintf("%v|%s|%v|%s|%v|%s|%s", json.Valid(doc), c1.String(), e1, c2.String(), e2, esc, json.Unescape(esc))
+		}},
+		{"json.Encoder+Decoder(streams)", func() string {
+			var buf bytes.Buffer
+			e := json.NewEncoder(&buf)
+			e.SetIndent("", " ")
+			for i := 0; i < 3; i++ {
+				e.Encode(map[string]any{"i": i, "k": k, "s": strings.Repeat("x", 100*i)})
+			}
+			d := json.NewDecoder(&buf)
+			var sb strings.Builder
+			for {
+				var v map[string]any
+				if err := d.Decode(&v); err != nil {
+					fmt.Fprintf(&sb, "%v", err)
+					break
+				}
+				fmt.Fprintf(&sb, "%v;", v["i"])
+			}
+			return sb.String()
+		}},
+		{"json.Unmarshal(into interfaces, flags)+Append(flags)", func() string {
+			var v any
+			_, err := json.Parse([]byte(`{"n": 12345678901234567890, "f": 1.5, "l": [1, -2, "s"], "k": `+strconv.Itoa(k)+`}`), &v, json.UseNumber|json.DontCopyString)
+			b, e2 := json.Append(nil, v, json.SortMapKeys)
+			return fmt.Sprintf("%s|%v|%v", b, err, e2)
+		}},
+		{"iso8601+ascii", func() string {
+			ts := "2021-03-25T21:36:" + fmt.Sprintf("%02d", k%60) + ".5Z"
+			t, err := iso8601.Parse(ts)
+			return fmt.Sprintf("%v|%v|%v|%v|%v", t.UnixNano(), err, iso8601.Valid(ts, iso8601.Strict), ascii.ValidString(ts), ascii.EqualFoldString(ts, strings.ToLower(ts)))
+		}},
 	}
+}
+
+type c09Narrow struct {
+	A int32 `thrift:"1"`
+	Z int64 `thrift:"9"`
+}
+
+type c09Wide struct {
+	A int32                `thrift:"1"`
+	S string               `thrift:"2"`
+	B []byte               `thrift:"3"`
+	L []string             `thrift:"4"`
+	M map[string]c09Narrow `thrift:"5"`
+	N *c09Narrow           `thrift:"6"`
+	Z int64                `thrift:"9"`
+}
+
+type c09PNarrow struct {
+	A int32 `protobuf:"varint,1,opt"`
+	Z int64 `protobuf:"varint,9,opt"`
+}
+
+type c09PWide struct {
+	A int32            `protobuf:"varint,1,opt"`
+	S string           `protobuf:"bytes,2,opt"`
+	B []byte           `protobuf:"bytes,3,opt"`
+	L []string         `protobuf:"bytes,4,rep"`
+	M map[string]int32 `protobuf:"bytes,5,rep" protobuf_key:"bytes,1,opt" protobuf_val:"varint,2,opt"`
+	Z int64            `protobuf:"varint,9,opt,name=z"`
+}
+
+// built on first use, by whichever goroutine gets there first (nothing may touch the caches before the recording starts)
+var (
+	c09RewriterOnce sync.Once
+	c09RewriterVal  proto.Rewriter
+)
+
+func c09Rewriter() proto.Rewriter {
+	c09RewriterOnce.Do(func() {
+		rw, err := proto.ParseRewriteTemplate(proto.TypeOf(reflect.TypeOf(c09PWide{})), []byte(`{"z": 77}`))
+		if err != nil {
+			panic(err)
+		}
+		c09RewriterVal = rw
+	})
+	return c09RewriterVal
 }
 
 // ---- trace recording
@@ -413,6 +540,25 @@ func c09Stress(args []string) {
 		// (the runs are short); this keeps addresses unique
 		debug.SetGCPercent(-1)
 	}
+	// progress watchdog: every call returns (alone each takes microseconds); when not one call has returned for a
+	// minute the goroutines wait for each other - the race detector's runtime does not notice that itself
+	var progress atomic.Int64
+	go func() {
+		last, idle := int64(-1), 0
+		for {
+			time.Sleep(5 * time.Second)
+			if now := progress.Load(); now != last {
+				last, idle = now, 0
+				continue
+			}
+			if idle++; idle >= 12 {
+				buf := make([]byte, 1<<16)
+				buf = buf[:runtime.Stack(buf, true)]
+				fmt.Fprintf(os.Stderr, "fatal error: no call of the stress has returned for %d s after %d calls (goroutines waiting for a lock that is never given back)\n%s\n", 5*idle, last, buf)
+				os.Exit(3)
+			}
+		}
+	}()
 	mism := 0
 	total := 0
 	report := func(s string) {
@@ -456,6 +602,7 @@ func c09Stress(args []string) {
 						res = p
 					}
 					results[g][k][o] = res
+					progress.Add(1)
 				}
 			}(g, order)
 		}
@@ -468,6 +615,7 @@ func c09Stress(args []string) {
 				if p := protect(func() { want = ops[k][o].run() }); p != "" {
 					want = p // a panic of the call made alone: reported through the comparison below
 				}
+				progress.Add(1)
 				if strings.Contains(ops[k][o].name, "result held") {
 					want = "stable" // this operation judges itself (against encoding/json): alone it must be stable too
 				}
